@@ -1228,7 +1228,8 @@ theorem depth_setup (cfg : CheckCfg) (hits : cfg.itsChecks = true) (hst : cfg.st
       checkWord cfg sK o = .ok (sW, []) ∧ checkWord cfg sK w = .ok (sW', mW') ∧ (∀ m ∈ mW', m ∈ ms) ∧
       o.length = 10 ∧ (∀ a ∈ pre, a.length = 10) ∧
       (stepped sK w).wordPos = p.offset + 64 + pre.length * C07.slotOf p.rdh ∧
-      (c0.fsm = .cIhwByTdtFalse → ∃ oT, c0.tdh = some oT) := by
+      (c0.fsm = .cIhwByTdtFalse → ∃ oT, c0.tdh = some oT) ∧
+      (∃ d1 g1, ConformingLinkTo cfg id0 [] {} xs d1 g1 ∧ (cfg.running = true → c0.cdw = g1.cdw)) := by
   obtain ⟨d1, g1, hcx, hc0⟩ := conformingLinkTo_append cfg id0 xs [x0] [] {} done' st' hc
   obtain ⟨s1, hrun, hinv, hrel⟩ := conforming_its_run_to cfg hits hst htp id0 xs [] (LinkSt.init cfg) {} d1 g1
     ⟨by simp [LinkSt.init, hver], fun _ => C10.init_inv⟩ ⟨Or.inl rfl, fun _ => rfl⟩ hcx
@@ -1270,7 +1271,7 @@ theorem depth_setup (cfg : CheckCfg) (hits : cfg.itsChecks = true) (hst : cfg.st
     simp only [Except.ok.injEq, Prod.mk.injEq] at hK'
     obtain ⟨rfl, _⟩ := hK'
     obtain ⟨t1, t2, t3⟩ := checkWords_tracker cfg pre _ sK [] hK
-    refine ⟨s1.cdp, sK, sW, sW', mW', by rw [hstart]; exact hK, hO, hW', ?_, holen, hprelen, ?_, ?_⟩
+    refine ⟨s1.cdp, sK, sW, sW', mW', by rw [hstart]; exact hK, hO, hW', ?_, holen, hprelen, ?_, ?_, ⟨d1, g1, hcx, hrel.cdw⟩⟩
     · intro m hm; exact hsub m (by rw [hms]; simp [hm])
     · simp only [stepped, CdpSt.wordPos, t1, t2, t3, startCdp, C07.slotOf, PktSpec.packet, hoff, hrdh]
       simp
@@ -1626,7 +1627,7 @@ theorem tdh_cont_copies_after_conforming_prefix (cfg : CheckCfg) (hits : cfg.its
     (tdhBc w ≠ tdhBc o → Msg.error { offset := at1, code := "E441", word := some w } ∈ ms) ∧
     (tdhOrbit w ≠ tdhOrbit o → Msg.error { offset := at1, code := "E442", word := some w } ∈ ms) ∧
     (tdhTriggerType w ≠ tdhTriggerType o → Msg.error { offset := at1, code := "E443", word := some w } ∈ ms) := by
-  obtain ⟨c0, sK, sW, sW', mW', hK, hO, hW', hsub, holen, hprelen, hpos, hopen⟩ :=
+  obtain ⟨c0, sK, sW, sW', mW', hK, hO, hW', hsub, holen, hprelen, hpos, hopen, _⟩ :=
     depth_setup cfg hits hst htp hver id0 xs x0 done' st' hc [i] o post hw0 p hoff hrdh w post' hne hcut sf ms h
   obtain ⟨hr, htdh, hfsm⟩ := after_first_ihw cfg c0 p.offset p.rdh i hi (hprelen i (by simp)) sK hK
   -- a quiet TDH with continuation 1 under the stateful checks is a continuation TDH
@@ -1672,6 +1673,116 @@ example : wordId lowBcTdh = wordId C01.Ex.tdhNoData ∧ tdhNoData lowBcTdh = tdh
 /-- `page1` starts with IHW + the continuation TDH of the open packet -/
 example : page1.words = [ihw] ++ tdhCont :: [data, data, tdtDone, tdhOpen, tdtDone] ∧ tdhContinuation tdhCont = 1 ∧ tdhContinuation tdh = 0 := by decide
 end ExDepth
+
+
+/-! ### the calibration-word index rule [E81] behind a conforming prefix -/
+
+/-- a word taken as IHW or TDH leaves the stored CDW and the start-of-data flag alone -/
+theorem checkWord_keeps_cdw (cfg : CheckCfg) (s : CdpSt) (w : Bytes) (s' : CdpSt) (ms : List Msg)
+    (h : checkWord cfg s w = .ok (s', ms))
+    (hcls : (fsmAdvance s.fsm w).2 ∈ [WordClass.ihw, .ihwCont, .tdh, .tdhCont, .tdhAfterPacketDone]) :
+    s'.cdw = s.cdw ∧ s'.startOfData = s.startOfData := by
+  rcases hadv : fsmAdvance s.fsm w with ⟨st', cls⟩
+  rw [hadv] at hcls
+  have hpt : ∀ t : CdpSt, (preTdh cfg t w).1.cdw = t.cdw ∧ (preTdh cfg t w).1.startOfData = t.startOfData := by
+    intro t; unfold preTdh replaceTdh; simp only; split <;> exact ⟨rfl, rfl⟩
+  cases cls <;> simp only [checkWord, hadv] at h <;> simp only [List.mem_cons, List.not_mem_nil, reduceCtorEq, or_self, or_false] at hcls
+  case ihw => simp only [preIhw, Except.ok.injEq, Prod.mk.injEq] at h; obtain ⟨rfl, _⟩ := h; exact ⟨rfl, rfl⟩
+  case ihwCont => simp only [preIhw, Except.ok.injEq, Prod.mk.injEq] at h; obtain ⟨rfl, _⟩ := h; exact ⟨rfl, rfl⟩
+  case tdh => simp only [Except.ok.injEq, Prod.mk.injEq] at h; obtain ⟨rfl, _⟩ := h; exact hpt _
+  case tdhCont => simp only [Except.ok.injEq, Prod.mk.injEq] at h; obtain ⟨rfl, _⟩ := h; exact hpt _
+  case tdhAfterPacketDone => simp only [Except.ok.injEq, Prod.mk.injEq] at h; obtain ⟨rfl, _⟩ := h; exact hpt _
+
+
+/-- a calibration word processed without a message was taken as a CDW -/
+theorem quiet_cdw_class (cfg : CheckCfg) (s : CdpSt) (o : Bytes) (hlen : o.length = 10) (s' : CdpSt)
+    (h : checkWord cfg s o = .ok (s', [])) (hid : wordId o = ID_CDW) :
+    (fsmAdvance s.fsm o).2 = .cdw := by
+  have hq := quiet_class cfg s o hlen s' h
+  have hdata : (fsmAdvance s.fsm o).2 = .dataWord → isFsmDataId (wordId o) = true := class_data_id _ _ _ _
+  cases hcls : (fsmAdvance s.fsm o).2 <;> rw [hcls] at hq <;> simp only [] at hq
+  all_goals first
+    | rfl
+    | (have := ihwSane_id o hq; rw [this] at hid; simp [ID_IHW, ID_CDW] at hid; done)
+    | (have := tdhSane_id o hq; rw [this] at hid; simp [ID_TDH, ID_CDW] at hid; done)
+    | (have := tdtSane_id o hq; rw [this] at hid; simp [ID_TDT, ID_CDW] at hid; done)
+    | (have := ddw0Sane_id o hq; rw [this] at hid; simp [ID_DDW0, ID_CDW] at hid; done)
+    | (have := hdata hcls; rw [hid] at this; simp [isFsmDataId, inRange, ID_CDW] at this; done)
+    | exact hq.elim
+
+
+/-- **the calibration-word index rule behind any conforming prefix** (`check all`): in a conforming packet whose first data-phase
+    word (index 2, after IHW and TDH) is a CDW, replace that CDW by a CDW whose index is not 0 and whose user fields differ from
+    the last CDW `prev` the link has sent in the conforming packets before — `[E81]` is reported at that word's offset, quoting it -/
+theorem cdw_index_rule_after_conforming_prefix (cfg : CheckCfg) (hits : cfg.itsChecks = true) (hst : cfg.stave = false)
+    (htp : cfg.triggerPeriod = none) (hver : cfg.customRdhVersion = none) (hrun : cfg.running = true)
+    (id0 : Nat) (xs : List PktSpec) (x0 : PktSpec) (done' : List Rdh) (st' : LSt)
+    (hc : ConformingLinkTo cfg id0 [] {} (xs ++ [x0]) done' st')
+    (i t o : Bytes) (post : List Bytes) (hw0 : x0.pl.words = [i, t] ++ o :: post)
+    (hi : wordId i = ID_IHW) (ht : wordId t = ID_TDH) (ho : wordId o = ID_CDW)
+    (p : Packet) (hoff : p.offset = x0.offset) (hrdh : p.rdh = decodeRdh x0.hdr)
+    (w : Bytes) (post' : List Bytes)
+    (hne : p.payload.isEmpty = false) (hcut : cutPayload p.payload = some ([i, t] ++ w :: post'))
+    (hid : wordId w = ID_CDW) (hnd : tdhNoData w = tdhNoData o) (hpd : tdtPacketDone w = tdtPacketDone o)
+    (prev : Bytes) (hprev : ∀ d1 g1, ConformingLinkTo cfg id0 [] {} xs d1 g1 → g1.cdw = some prev)
+    (huf : cdwUserFields prev ≠ cdwUserFields w) (hidx : cdwIndex w ≠ 0)
+    (sf : LinkSt) (ms : List Msg)
+    (h : linkRun cfg (LinkSt.init cfg) (xs.map PktSpec.packet ++ [p]) = .ok (sf, ms)) :
+    Msg.error { offset := p.offset + 64 + 2 * C07.slotOf p.rdh, code := "E81", word := some w } ∈ ms := by
+  obtain ⟨c0, sK, sW, sW', mW', hK, hO, hW', hsub, holen, hprelen, hpos, _, d1, g1, hcx, hcdw⟩ :=
+    depth_setup cfg hits hst htp hver id0 xs x0 done' st' hc [i, t] o post hw0 p hoff hrdh w post' hne hcut sf ms h
+  -- the two words in front (IHW, TDH) were processed without a message: they keep the stored CDW and the start-of-data flag
+  simp only [checkWords] at hK
+  cases h1 : checkWord cfg (startCdp c0 p.offset p.rdh) i with
+  | error e => simp [h1] at hK
+  | ok r1 =>
+    obtain ⟨s1, m1⟩ := r1
+    simp only [h1] at hK
+    cases h2 : checkWord cfg s1 t with
+    | error e => simp [h2] at hK
+    | ok r2 =>
+      obtain ⟨s2, m2⟩ := r2
+      simp only [h2, List.append_nil, Except.ok.injEq, Prod.mk.injEq] at hK
+      obtain ⟨rfl, hm⟩ := hK
+      obtain ⟨hm1, hm2⟩ := List.append_eq_nil_iff.mp hm
+      subst hm1; subst hm2
+      have hc1 : (fsmAdvance (startCdp c0 p.offset p.rdh).fsm i).2 ∈ [WordClass.ihw, .ihwCont, .tdh, .tdhCont, .tdhAfterPacketDone] := by
+        rcases (quiet_ihw_class_iff cfg _ i (hprelen i (by simp)) s1 h1).mpr hi with hh | hh <;> simp [hh]
+      have hc2 : (fsmAdvance s1.fsm t).2 ∈ [WordClass.ihw, .ihwCont, .tdh, .tdhCont, .tdhAfterPacketDone] := by
+        have hq2 := quiet_class cfg _ t (hprelen t (by simp)) s2 h2
+        have hm := (quiet_tdh_class_iff cfg _ t (hprelen t (by simp)) s2 h2).mpr ht
+        simp only [List.mem_cons, List.not_mem_nil, or_false] at hm
+        rcases hm with hh | hh | hh | hh
+        · simp [hh]
+        · simp [hh]
+        · simp [hh]
+        · rw [hh] at hq2; exact hq2.elim
+      obtain ⟨k1c, k1s⟩ := checkWord_keeps_cdw cfg _ i s1 [] h1 hc1
+      obtain ⟨k2c, k2s⟩ := checkWord_keeps_cdw cfg _ t s2 [] h2 hc2
+      have hsod : s2.startOfData = true := by rw [k2s, k1s]; rfl
+      have hcdwK : s2.cdw = some prev := by
+        rw [k2c, k1c]
+        show c0.cdw = some prev
+        rw [hcdw hrun]; exact hprev d1 g1 hcx
+      -- the conforming CDW was taken as a CDW; the replacement has the same identifier and flag bits
+      have hclso := quiet_cdw_class cfg s2 o holen sW hO ho
+      have hclsw : (fsmAdvance s2.fsm w).2 = .cdw := by
+        rw [same_shape_same_class s2.fsm w o (by rw [hid, ho]) hnd hpd]; exact hclso
+      have hbad : (cdwUserFields prev != cdwUserFields w && cdwIndex w != 0) = true := by simp [huf, hidx]
+      have hmem : mkErr (stepped s2 w) "E81" w ∈ mW' := by
+        rcases hadv : fsmAdvance s2.fsm w with ⟨st', cls⟩
+        rw [hadv] at hclsw
+        simp only at hclsw
+        subst hclsw
+        have hst' : (stepped s2 w) = { s2 with wordCount := s2.wordCount + 1, fsm := st' } := by simp [stepped, hadv]
+        simp only [checkWord, hadv, preData, hsod, hid, beq_self_eq_true, Bool.and_self, if_true, hrun, Bool.not_true,
+          Bool.false_eq_true, if_false, hcdwK, hbad] at hW'
+        simp only [Except.ok.injEq, Prod.mk.injEq] at hW'
+        obtain ⟨_, rfl⟩ := hW'
+        rw [hst']; simp [mkErr, CdpSt.wordPos]
+      have := hsub _ hmem
+      simpa [mkErr, hpos] using this
+
 
 
 /-! ### tie by translation: the state-dependent rule checks are the source's (`Spec/StateSrcGen.lean`) -/
